@@ -55,6 +55,7 @@ type World struct {
 	cnt    map[string]int // hook counters
 	cntCh  chan struct{}
 	gossip []*GossipMsg
+	sentTo map[[2]int]bool
 	ngoss  int
 }
 
@@ -546,6 +547,9 @@ func (w *World) poke() {
 // onWrite: bytes written by the broker. Complete packets are decoded and recorded here, i.e.
 // at the moment of the write, in the order of the writes.
 func (cl *Client) onWrite(b []byte) {
+	if cl.Node.Down {
+		return // the hosting node has failed: nothing it still does reaches anybody
+	}
 	cl.mu.Lock()
 	cl.buf = append(cl.buf, b...)
 	var pkts []mq.Packet
@@ -598,7 +602,11 @@ func (cl *Client) Send(ev rec.Ev, raw []byte) error {
 	ev["c"] = cl.C
 	var err error
 	cl.W.R.Do(func() rec.Ev {
-		err = cl.Conn.ClientWrite(raw)
+		if cl.Node.Down {
+			err = errors.New("node is down")
+		} else {
+			err = cl.Conn.ClientWrite(raw)
+		}
 		if err != nil {
 			ev["dropped"] = true
 		}
@@ -677,6 +685,10 @@ func (w *World) Collect() []*GossipMsg {
 func (w *World) Deliver(g *GossipMsg, to int) {
 	w.mu.Lock()
 	n := w.Nodes[to]
+	if w.sentTo == nil {
+		w.sentTo = map[[2]int]bool{}
+	}
+	w.sentTo[[2]int{g.ID, to}] = true
 	w.mu.Unlock()
 	if n == nil || n.Down || to == g.From {
 		return
@@ -696,18 +708,26 @@ func (w *World) Msg(id int) *GossipMsg {
 	return nil
 }
 
-// PumpAll delivers every not yet collected broadcast to every other node, in order.
+// PumpAll delivers every broadcast that some node has not received yet, in the order of their ids.
 func (w *World) PumpAll() int {
 	k := 0
 	for {
-		ms := w.Collect()
-		if len(ms) == 0 {
+		w.Collect()
+		w.mu.Lock()
+		var todo [][2]int
+		for _, g := range w.gossip {
+			for id, n := range w.Nodes {
+				if id != g.From && !n.Down && !w.sentTo[[2]int{g.ID, id}] {
+					todo = append(todo, [2]int{g.ID, id})
+				}
+			}
+		}
+		w.mu.Unlock()
+		if len(todo) == 0 {
 			return k
 		}
-		for _, g := range ms {
-			for id := range w.Nodes {
-				w.Deliver(g, id)
-			}
+		for _, t := range todo {
+			w.Deliver(w.Msg(t[0]), t[1])
 			k++
 		}
 	}
